@@ -384,6 +384,76 @@ class _Wrap:
         return r
 
 
+def _to_sympy(e, cache):
+    """z3 arithmetic term -> sympy expression; uninterpreted applications become sympy functions of their CANONICALISED
+    arguments (cancel(together(.))), so equal rational arguments give the same atom.  Raises ValueError on anything else."""
+    import sympy
+    k = e.get_id()
+    if k in cache:
+        return cache[k]
+    if z3.is_rational_value(e):
+        r = sympy.Rational(e.numerator_as_long(), e.denominator_as_long())
+    elif z3.is_int_value(e):
+        r = sympy.Integer(e.as_long())
+    elif z3.is_app(e):
+        dk = e.decl().kind()
+        ch = e.children()
+        if dk == z3.Z3_OP_ADD:
+            r = sympy.Add(*[_to_sympy(c, cache) for c in ch])
+        elif dk == z3.Z3_OP_MUL:
+            r = sympy.Mul(*[_to_sympy(c, cache) for c in ch])
+        elif dk == z3.Z3_OP_SUB:
+            xs = [_to_sympy(c, cache) for c in ch]
+            r = xs[0] - sympy.Add(*xs[1:])
+        elif dk == z3.Z3_OP_UMINUS:
+            r = -_to_sympy(ch[0], cache)
+        elif dk in (z3.Z3_OP_DIV, z3.Z3_OP_IDIV) and dk == z3.Z3_OP_DIV:
+            r = _to_sympy(ch[0], cache) / _to_sympy(ch[1], cache)
+        elif dk == z3.Z3_OP_POWER and z3.is_int_value(ch[1]) or (dk == z3.Z3_OP_POWER and z3.is_rational_value(ch[1]) and ch[1].denominator_as_long() == 1):
+            r = _to_sympy(ch[0], cache) ** int(str(ch[1]).split("/")[0])
+        elif dk == z3.Z3_OP_TO_REAL:
+            r = _to_sympy(ch[0], cache)
+        elif dk == z3.Z3_OP_UNINTERPRETED:
+            if not ch:
+                r = sympy.Symbol("c_" + e.decl().name() + ("_i" if z3.is_int(e) else ""))
+            else:
+                args = [sympy.cancel(sympy.together(_to_sympy(c, cache))) for c in ch]
+                r = sympy.Function("f_" + e.decl().name())(*args)
+        else:
+            raise ValueError("not a ring term: " + e.decl().name())
+    else:
+        raise ValueError("not a ring term")
+    cache[k] = r
+    return r
+
+
+def poly_zero(d, budget_s=30):
+    """is the z3 arithmetic term d identically zero as a rational function of its atoms?  (exact, via sympy; None = not decided)"""
+    import sympy, signal, threading
+
+    class _TO(Exception):
+        pass
+
+    def _alarm(*_):
+        raise _TO()
+    use_alarm = threading.current_thread() is threading.main_thread()
+    old = None
+    try:
+        if use_alarm:
+            old = signal.signal(signal.SIGALRM, _alarm)
+            signal.setitimer(signal.ITIMER_REAL, budget_s)
+        ex = _to_sympy(d, {})
+        num, _ = sympy.fraction(sympy.together(ex))
+        return sympy.expand(num) == 0
+    except (ValueError, RecursionError, OverflowError, _TO):
+        return None
+    finally:
+        if use_alarm:
+            signal.setitimer(signal.ITIMER_REAL, 0)
+            if old is not None:
+                signal.signal(signal.SIGALRM, old)
+
+
 def nf_valid(p, depth=0):
     """sound syntactic proof attempt: the formula is valid if every arithmetic equality in positive position reduces to
     0 == 0 in z3's sum-of-monomials normal form (uninterpreted applications are atoms)"""
@@ -402,7 +472,11 @@ def nf_valid(p, depth=0):
             r = z3.simplify(p.arg(0) - p.arg(1), som=True, flat=True, sort_sums=True)
         except z3.Z3Exception:
             return False
-        return z3.is_rational_value(r) and r.numerator_as_long() == 0
+        if z3.is_rational_value(r):
+            return r.numerator_as_long() == 0
+        # z3's normal form does not always cancel (integer->real coercions, atoms with equal but differently written
+        # arguments): second, exact attempt with sympy on the same term
+        return poly_zero(p.arg(0) - p.arg(1)) is True
     return False
 
 
@@ -447,8 +521,12 @@ class Check:
                     out["holds"] += 1
                     out.setdefault("notes", []).append(f"float-exactness not structurally evident and no witness in the pool: {desc}")
                 continue
+            if is_sym(prop) and z3.is_and(prop) and prop.num_args() > 1:
+                # clauses that are polynomial identities are discharged by the sum-of-monomials normal form; only the rest go to the solver
+                rest = [ch for ch in prop.children() if not nf_valid(ch)]
+                out["nf_clauses"] = out.get("nf_clauses", 0) + prop.num_args() - len(rest)
+                prop = z3.And(*rest) if len(rest) > 1 else rest[0] if rest else True
             r, model = self.m.check(prop, timeout_ms)
-            out["solver_s"] += time.time() - t0
             out["checks"] += 1
             if r == "unknown" and is_sym(prop) and z3.is_and(prop) and prop.num_args() > 1:
                 # the conjunction was too much at once: decide the clauses one by one (normal-form proof first)
@@ -457,6 +535,10 @@ class Check:
                     r = "holds"
                 elif any(x[0] == "fails" for x in sub):
                     r, model = "fails", next(x[1] for x in sub if x[0] == "fails")
+            dt_ = time.time() - t0
+            out["solver_s"] += dt_
+            if dt_ > 2.0:
+                out.setdefault("slow", []).append((round(dt_, 1), r, desc[:140]))
             if r == "holds":
                 out["holds"] += 1
             elif r == "unknown":
@@ -489,6 +571,8 @@ def merge(acc, r):
     acc.setdefault("unknown", []).extend(r["unknown"])
     if r.get("notes"):
         acc.setdefault("notes", []).extend(r["notes"])
+    if r.get("slow"):
+        acc.setdefault("slow", []).extend(r["slow"])
 
 
 def summarize(results):
@@ -512,6 +596,11 @@ def summarize(results):
         for p in r.get("panics", []):
             tot["panics"].append(f"{r.get('ob')}: {p}")
         tot["fns"] |= set(r.get("fns", [])); tot["models"] |= set(r.get("models", [])); tot["axioms"] |= set(r.get("axioms", []))
+        for sl in r.get("slow", []):
+            tot.setdefault("slow", []).append((sl[0], sl[1], f"{r.get('ob')}: {sl[2]}"))
+        for nt in r.get("notes", []):
+            tot.setdefault("notes", []).append(f"{r.get('ob')}: {nt}")
+    tot["slow"] = sorted(tot.get("slow", []), reverse=True)[:12]
     return tot
 
 
@@ -619,7 +708,8 @@ def standard_finish(pid, ev, obs, results, tot, role_fn, bounds, rule, assumptio
            samples=[{"obligation": r["ob"], "paths": r.get("paths"), "checks": r.get("checks"), "holds": r.get("holds"), "leaf_kinds": r.get("leaf_kinds"), "wall_s": r.get("wall_s")}
                     for r in results[:: max(1, len(results) // 12)] if r],
            queries={"validity": tot["checks"], "valid": tot["holds"], "feasibility": tot["feas_checks"], "unknown": len(tot["unknown"])},
-           solver_time_s=round(tot["solver_s"], 2), panic_leaves=len(tot["panics"]))
+           solver_time_s=round(tot["solver_s"], 2), panic_leaves=len(tot["panics"]),
+           slowest_queries=[{"seconds": a, "verdict": b, "what": c} for a, b, c in tot.get("slow", [])], float_exactness_notes=tot.get("notes", [])[:10])
     ev.assume(*assumptions)
     C.finish(ev, violations, undecided[:30], sorted(set(known_lines)))
 
